@@ -240,6 +240,19 @@ def check(prop, tier, seed):
     if relevant_fails:
         A["ok"] = False
         A["problems"] += relevant_fails
+    if P.get("panic_inventory") and eok:
+        # E6 (C04): every potential panic site of the current source must be in the reviewed inventory
+        import collections
+        cur = json.load(open(os.path.join(WORK, "gen", "panic_sites.json")))
+        rev = json.load(open(os.path.join(ROOT, "panic_inventory.json")))["sites"]
+        key = lambda x: (x["file"], x["fn"], x["kind"], x["expr"])
+        extra = collections.Counter(map(key, cur)) - collections.Counter(map(key, rev))
+        A["panic_sites"] = dict(current=len(cur), reviewed=len(rev), unreviewed=sum(extra.values()))
+        if extra:
+            A["ok"] = False
+            lst = ["%s :: %s :: %s :: %s" % k for k in list(extra)[:8]]
+            A["problems"].append("unreviewed potential panic site(s) in the current source (not in panic_inventory.json): " + " | ".join(lst))
+            A.setdefault("failing", []).append("C04 panic-site inventory (E6)")
     info["A"] = A
     b_mis, c_fail, n_model, n_spec, meta = [], [], 0, 0, {}
     ran = False
@@ -309,7 +322,7 @@ def check(prop, tier, seed):
                             model_mismatches=len(b_mis), direct_oracle_checks=meta.get("direct_checks", 0),
                             oracle_failures=len(c_fail), known_findings_reproduced=sorted(known_hit)),
         input_distribution=meta.get("stats", {}),
-        extractor=dict(ok=eok, failures=efails),
+        extractor=dict(ok=eok, failures=efails), panic_sites=A.get("panic_sites"),
         exhaustive=bool(meta.get("exhaustive", False)),
         explanation=P["level_text"],
     )
